@@ -137,6 +137,26 @@ Theorem C04_fanin_order_refuted :
 Proof. exact fanin_order_refuted. Qed.
 Print Assumptions C04_fanin_order_refuted.
 
+(** Outside both classes of the flush-only setting (the context has rows of the type
+    in only one of the two flows, and not both in the active memtable and in a passive
+    copy) EVERY schedule returns exactly the append order. *)
+Theorem C04_append_order_outside_known : forall c0 ls u c r,
+  no_crash ls -> NoDup (map ek (applied ls)) ->
+  let s := run (init c0) ls in
+  MemtableAndSegmentFlowsInterleave s u c = false -> ActiveBeforePassive s u c = false ->
+  Interleave (replay_mem s u c) (replay_seg s u c) r ->
+  dedup_keys r = ctx_events ls u c.
+Proof. exact replay_order_outside_known. Qed.
+Print Assumptions C04_append_order_outside_known.
+
+Theorem C04_append_order_example :
+  let s := run (init 4) ls_fanin in
+  MemtableAndSegmentFlowsInterleave s 0 2 = false /\ ActiveBeforePassive s 0 2 = false /\
+  map ek (replay_seg s 0 2) = [2] /\ replay_mem s 0 2 = [] /\
+  MemtableAndSegmentFlowsInterleave s 0 1 = true.
+Proof. exact replay_order_example. Qed.
+Print Assumptions C04_append_order_example.
+
 (** ** 5. Compaction *)
 
 (** The model's merge is stable.  For ANY relation [R] ("appended before"): if every
